@@ -27,6 +27,7 @@ import (
 	"verifharness/prog"
 	"verifharness/rig"
 	"verifharness/runner"
+	"verifharness/simnet"
 )
 
 // Msg is the message type of the hand-written service.
@@ -929,6 +930,71 @@ func largeErrorText(id string, seed uint64) runner.Result {
 	return res
 }
 
+// errorAtTheLimit: the handler's error, encoded, is exactly as large as the client's reader accepts, or a
+// few bytes smaller, and the transport hands the bytes over in pieces that end inside the frame's last
+// bytes. An error that fits the limit reaches the caller with its text and code and the connection
+// serves the next call.
+func errorAtTheLimit(id string, seed uint64) runner.Result {
+	r := &payload.SplitMix{S: seed}
+	cfg := prog.GenConfig(r, false)
+	if cfg.Net.Cap == 0 {
+		cfg.Net.Cap = -1
+	}
+	limit := payload.Pick(r, []int{4095, 4095, 4095, 4094, 4096, 100, 1000, 8191, 70000})
+	below := r.Intn(5)
+	n := limit - 8 - below
+	cfg.Client.Reader.MaximumBufferSize = limit
+	switch r.Intn(3) {
+	case 0:
+		cfg.Net.ChunkA, cfg.Net.ChunkB = simnet.ChunkAll{}, simnet.ChunkAll{}
+	case 1:
+		k := limit + 1 + r.Intn(4)
+		cfg.Net.ChunkA, cfg.Net.ChunkB = simnet.ChunkK{K: k}, simnet.ChunkK{K: k}
+	}
+	code := payload.Pick(r, []uint64{1, 7, 1<<64 - 2})
+	text := strings.Repeat("abcdefghij", n/10+1)[:n]
+	handler := rig.HandlerFunc(func(stream drpc.Stream, rpc string) error {
+		var m Msg
+		if err := stream.MsgRecv(&m, enc{}); err != nil {
+			return err
+		}
+		if rpc == "/probe" {
+			return stream.MsgSend(&Msg{B: []byte("probe-response")}, enc{})
+		}
+		return drpcerr.WithCode(errors.New(text), code)
+	})
+	rg := rig.New(rig.Config{Net: cfg.Net, Client: cfg.Client, Server: cfg.Server}, handler)
+	defer rg.Teardown()
+	desc := fmt.Sprintf("%s | error-at-the-limit: client reader limit %d; the handler fails with code %d and a text of %d bytes (encoded: %d bytes, %d below the limit); chunks %T%v", cfg.Desc, limit, code, n, n+8, below, cfg.Net.ChunkA, cfg.Net.ChunkA)
+	var out Msg
+	op := rig.Go("call", func() (interface{}, error) {
+		return nil, rg.Conn.Invoke(context.Background(), "/rpc", enc{}, &Msg{B: []byte("x")}, &out)
+	})
+	if !op.Wait() {
+		return runner.Violation(id, "error-identity:error-at-the-limit:call-never-returns", desc)
+	}
+	var fails []string
+	if op.Err == nil {
+		fails = append(fails, "the handler failed but the call returned nil")
+	} else if op.Err.Error() != text || drpcerr.Code(op.Err) != code {
+		fails = append(fails, fmt.Sprintf("the error fits the client's reader limit but the client got code %d and %s", drpcerr.Code(op.Err), clipS(op.Err.Error())))
+	}
+	if len(fails) == 0 {
+		probe := rig.Go("probe", func() (interface{}, error) {
+			return nil, rg.Conn.Invoke(context.Background(), "/probe", enc{}, &Msg{B: []byte("probe")}, &out)
+		})
+		if !probe.Wait() || probe.Err != nil {
+			fails = append(fails, fmt.Sprintf("probe RPC after the call: returned=%v err=%v", probe.Returned(), probe.Err))
+		}
+	}
+	if len(fails) > 0 {
+		return runner.Violation(id, "error-identity:error-at-the-limit", desc+"\n"+strings.Join(fails, "\n"))
+	}
+	res := runner.Hold(id, desc, true)
+	res.Events = 2
+	return res
+}
+
 // unknownRPC: the dispatcher's own failure. A name the mux does not have, called in every client shape
 // and order of first steps (unary; stream with a receive first, a send first, a half-close first): the
 // call fails with the dispatcher's message and no code, whatever the client did first, and the
@@ -1098,6 +1164,10 @@ func gen(tier string, seed uint64) []runner.Scenario {
 			id7 := fmt.Sprintf("unknown-rpc/%d", i)
 			out = append(out, runner.Scenario{ID: id7, Run: func() runner.Result { return unknownRPC(id7, payload.Hash(seed, 0xC10F, uint64(i))) }})
 		}
+		if i%8 == 0 {
+			id9 := fmt.Sprintf("error-at-the-limit/%d", i)
+			out = append(out, runner.Scenario{ID: id9, Run: func() runner.Result { return errorAtTheLimit(id9, payload.Hash(seed, 0xC111, uint64(i))) }})
+		}
 		if i%12 == 0 {
 			id6 := fmt.Sprintf("large-error-text/%d", i)
 			out = append(out, runner.Scenario{ID: id6, Run: func() runner.Result { return largeErrorText(id6, payload.Hash(seed, 0xC10E, uint64(i))) }})
@@ -1122,7 +1192,7 @@ func main() {
 	runner.Main(runner.Check{
 		Property: "C10",
 		Level:    "exploration",
-		Rule:     "one case = 2-5 consecutive calls on one connection against a hand-written four-shape service registered with the real drpcmux; each call draws: shape, outcome (handler error with text in {empty, ASCII, 64 KiB, random bytes, NUL/invalid UTF-8, non-ASCII/CRLF} x code in {none,1,2,12,2^32,2^63,2^64-1} attached by WithCode or a Code() method x wrapping depth in {0,1,2,5,20,50} through Cause/Unwrap chains of six wrapper species (value and pointer types, comparable and not, mixed or one species throughout); success; unknown rpc; undecodable request), k in 0..3 responses before the outcome, request size in {0,10,5000,70000,~1 MiB}; unary calls are parked between their invoke and message writes until the server's answer has arrived in half of the cases; seeded configuration cell. Followed by a probe. Plus one case that runs the same clauses through the code protoc-gen-go-drpc (built from the repository) generates for a four-shape service: unknown rpc, a handler failing at once, a request that cannot be marshalled, with small and 100 KB requests, each followed by a probe on the same connection. Non-trivial: all. Distinct: by configuration and call list.",
+		Rule:     "one case = 2-5 consecutive calls on one connection against a hand-written four-shape service registered with the real drpcmux; each call draws: shape, outcome (handler error with text in {empty, ASCII, 64 KiB, random bytes, NUL/invalid UTF-8, non-ASCII/CRLF} x code in {none,1,2,12,2^32,2^63,2^64-1} attached by WithCode or a Code() method x wrapping depth in {0,1,2,5,20,50} through Cause/Unwrap chains of six wrapper species (value and pointer types, comparable and not, mixed or one species throughout); success; unknown rpc; undecodable request), k in 0..3 responses before the outcome, request size in {0,10,5000,70000,~1 MiB}; unary calls are parked between their invoke and message writes until the server's answer has arrived in half of the cases; seeded configuration cell. Followed by a probe. Plus one case that runs the same clauses through the code protoc-gen-go-drpc (built from the repository) generates for a four-shape service: unknown rpc, a handler failing at once, a request that cannot be marshalled, with small and 100 KB requests, each followed by a probe on the same connection. Non-trivial: all. Distinct: by configuration and call list. (error-at-the-limit) the handler's encoded error is exactly as large as the client's reader limit (100 to 70000 bytes) or up to four bytes smaller, with transport chunks ending inside the frame's last bytes: text and code reach the caller and the connection serves the next call.",
 		Assumptions: []string{
 			"expected client text is the text of the error the handler returned (errs.Wrap without a class and the wrappers used keep the text); expected code is the code the scenario attached, read back on the client both by drpcerr.Code and by an independent walk of the Unwrap/Cause chain",
 			"wrapping depth stays below the library's documented 100-step unwrap bound",
